@@ -62,6 +62,13 @@ def fieldsUnesc (html : Bytes) : List (Bytes × Bytes) :=
 def qsFirstLast (ps : List (Bytes × Bytes)) (k : Bytes) : Option Bytes :=
   ((ps.reverse).find? (fun kv => kv.1 == k)).map (·.2)
 
+/-- Which branch of `add_query` a destination takes (model path id). -/
+def locPath (loc : Bytes) : String :=
+  let base := loc.takeWhile (· != 35)
+  (if !base.contains 63 then "/no-query"
+   else if base.getLast? == some 63 then (if (queryOf loc).isEmpty then "/empty-query" else "/trailing-qmark")
+   else if base.getLast? == some 38 then "/trailing-amp" else "/query") ++ (if loc.contains 35 then "+fragment" else "")
+
 /-- The form controls as the harness's own HTML parser saw them. -/
 def implFieldsOk (typ rs : Bytes) (f : Option (List (Bytes × Bytes))) : Bool :=
   match f with
@@ -204,10 +211,9 @@ def handle (line : Json) : Json :=
   | "redirect" =>
     let typ := text c "typ"; let msg := text c "msg"; let loc := text c "loc"; let rs := text c "rs"
     let deflated := (hex? c "deflated").getD []
-    let netlocOk := boolD c "netloc_ok" true
     let inflate : Bytes → Option Bytes := fun b => if b == deflated then some msg else none
-    match redirectUrl (fun _ => deflated) netlocOk typ msg loc rs with
-    | none => res (Json.mkObj [("url", Json.null)]) (if netlocOk then "redirect/unknown-typ" else "redirect/urlparse-raises") true true
+    match redirectUrl (fun _ => deflated) typ msg loc rs with
+    | none => res (Json.mkObj [("url", Json.null)]) "redirect/unknown-typ" true true
     | some url =>
       let ps := parseQsl (queryOf url)
       let v := qsFirstLast ps typ
@@ -226,15 +232,13 @@ def handle (line : Json) : Json :=
             (clash || (typ == sSAMLart && msg.isEmpty) || (hex? impl "unraveled" == some msg &&
               hex? impl "relay" == (if rs.isEmpty then none else some rs)))
       let path := "redirect/" ++ (if typ == sSAMLart then "art" else "saml") ++ (if rs.isEmpty then "" else "+relay") ++
-        (if loc.contains 35 then "/fragment" else if !loc.contains 63 then "/no-query"
-         else if locQueryTruthy loc then "/query" else "/empty-query") ++ (if clash then "+clash" else "")
+        locPath loc ++ (if clash then "+clash" else "")
       res model path specM specImpl
-        (if locOk loc then "" else "destination has a fragment or an empty query")
+        (if locOk loc then "" else "the destination's query ends in '?'")
   | "artifact_url" =>
     let art := text c "art"; let loc := text c "loc"; let rs := text c "rs"
-    let netlocOk := boolD c "netloc_ok" true
-    match artifactUrl netlocOk art loc rs with
-    | none => res (Json.mkObj [("url", Json.null)]) "arturl/urlparse-raises" true true
+    match some (artifactUrl art loc rs) with
+    | none => res (Json.mkObj [("url", Json.null)]) "arturl/none" true true
     | some url =>
       let ps := parseQsl (queryOf url)
       let model := Json.mkObj [("url", jhex url), ("params", pairsToJson ps)]
@@ -242,11 +246,9 @@ def handle (line : Json) : Json :=
       let specImpl := match hex? impl "url" with
         | none => false
         | some u => if u == url then specM else specArtifactUrl art loc rs u
-      let path := "arturl" ++ (if rs.isEmpty then "" else "+relay") ++
-        (if loc.contains 35 then "/fragment" else if !loc.contains 63 then "/no-query"
-         else if locQueryTruthy loc then "/query" else "/empty-query")
+      let path := "arturl" ++ (if rs.isEmpty then "" else "+relay") ++ locPath loc
       res model path specM specImpl
-        (if locOk loc then "" else "destination has a fragment or an empty query")
+        (if locOk loc then "" else "the destination's query ends in '?'")
   | "soap" =>
     let thingy := points (strD c "thingy")
     let wrapped := soapWrapStr thingy
